@@ -1,222 +1,10 @@
-//! C05 — indicator raw values equal the documented formulas.
-//! C06 — indicator signals fire exactly under their documented conditions (same explorations, second oracle;
-//!       this binary serves both: the property id is taken from the executable's name).
+//! C06 — indicator signals fire exactly under their documented conditions.
+//! The explorations are those of C05 with the second oracle: the one source file serves both, the
+//! property id is taken from the executable's name.
 
-use checks::indcheck::*;
-use checks::*;
+#[path = "c05.rs"]
+mod c05;
 
 fn main() {
-	refmodel::set_eps(eps());
-	refmodel::set_floor(ValueType::MIN_POSITIVE as f64);
-	let exe = std::env::args().next().unwrap_or_default();
-	let is_c06 = exe.ends_with("c06");
-	let prop = if is_c06 { "C06" } else { "C05" };
-	let oracle = if is_c06 { Oracle::Signals } else { Oracle::Values };
-	let mut h = H::start(prop);
-	let thorough = h.thorough();
-	if let Err(e) = ind::registry_complete() {
-		h.run.machinery_error(e);
-	}
-	let only = std::env::var("VERIF_ONLY").ok();
-	let ks = alpha::k_candles();
-	let mut missing = vec![];
-	let mut not_exercised = vec![];
-	let mut totals: std::collections::BTreeMap<(String, usize), [u64; 4]> = Default::default();
-	macro_rules! tally {
-		($sys:expr) => {
-			for (n, s, c) in $sys.totals() {
-				let e = totals.entry((n, s)).or_insert([0; 4]);
-				for k in 0..4 {
-					e[k] += c[k];
-				}
-			}
-		};
-	}
-	for c in ind::defaults() {
-		let name = c.const_name();
-		if let Some(o) = &only {
-			if o != name {
-				continue;
-			}
-		}
-		if refmodel::ind::make(name, &ref_cfg(c.as_ref()), &rc(&ks[0])).is_none() {
-			missing.push(name.to_string());
-			continue;
-		}
-		// (7) builds with a wider PeriodType (run as a sub-check of C20): one parameter at a time beyond
-		// the capacity of u8, long steady streams (constant, ramps, zigzags) with at most one deviation
-		if std::env::var("VERIF_WIDE").is_ok() && (PeriodType::MAX as u64) > 255 {
-			let mut cfgs = vec![];
-			for (key, val) in ind::json_map(&c.to_json().unwrap()) {
-				let texts: Vec<String> = if val.is_u64() {
-					vec!["300".into(), "511".into()]
-				} else if let Some(o) = val.as_object() {
-					let kind = o.keys().next().unwrap().clone();
-					let kind = if kind == "lin_reg" { "linreg".to_string() } else { kind };
-					vec![format!("{kind}-300")]
-				} else {
-					vec![]
-				};
-				for t in texts {
-					let mut x = c.boxed_clone();
-					if x.set(&key, t).is_ok() && x.validate() {
-						cfgs.push(x);
-					}
-				}
-			}
-			if !cfgs.is_empty() {
-				let hi = yata::core::Candle { open: ks[1].open + 3000.0, high: ks[1].high + 3000.0, low: ks[1].low + 3000.0, close: ks[1].close + 3000.0, volume: ks[1].volume };
-				let sys = IndSys::new(&format!("{name}/deviation/wide-periods"), cfgs, vec![ks[1], hi], vec![ks[1], ks[2]], oracle, true).with_zigzag();
-				h.go(&sys, &Limits::deviation(0, 1300).wall_secs(600), true);
-				tally!(sys);
-			}
-			continue;
-		}
-		// (1) default + small-period configuration: every candle sequence to a depth
-		let base = indicator_configs_small3(name);
-		let sys = IndSys::new(&format!("{name}/depth/default+small"), base, ks[..2].to_vec(), ks.clone(), oracle, false);
-		h.go(&sys, &Limits::depth(if thorough { 7 } else { 6 }).wall_secs(600), true);
-		tally!(sys);
-		// (1b) values only: the first candle fed is NOT the construction candle - an instance created from
-		// c0 must already be in the state "c0 has been seen forever" (a wrong seed in `init` that the
-		// prescribed first step would overwrite shows here)
-		if !is_c06 {
-			let sys = IndSys::new(&format!("{name}/depth/first-candle-free"), indicator_configs_small3(name), ks[..2].to_vec(), ks.clone(), oracle, false).with_first_free();
-			h.go(&sys, &Limits::depth(if thorough { 6 } else { 5 }).wall_secs(600), true);
-		}
-		not_exercised.extend(sys.unexercised());
-		// (2) every MA kind in every MA slot and every source, one slot varied at a time
-		let mut kinds = indicator_configs(Some(name), true);
-		kinds.drain(..kinds.len().min(2));
-		if !kinds.is_empty() {
-			let sys = IndSys::new(&format!("{name}/depth/ma-kinds+sources"), kinds, ks[1..2].to_vec(), ks.clone(), oracle, false);
-			h.go(&sys, &Limits::depth(if thorough { 6 } else { 5 }).wall_secs(600), true);
-			tally!(sys);
-		}
-		// (3) default configuration: long flat streams with deviations (periods of the default config are 10-50)
-		let sys = IndSys::new(&format!("{name}/deviation/default"), indicator_configs(Some(name), false), vec![ks[1], ks[5]], vec![ks[1], ks[2], ks[3], ks[0], ks[5]], oracle, true);
-		h.go(&sys, &Limits::deviation(if thorough { 2 } else { 1 }, if thorough { 120 } else { 90 }).wall_secs(600), true);
-		tally!(sys);
-		let sys2 = IndSys::new(&format!("{name}/deviation-2/default"), indicator_configs(Some(name), false), vec![ks[1]], vec![ks[1], ks[2], ks[3]], oracle, true);
-		h.go(&sys2, &Limits::deviation(if thorough { 3 } else { 2 }, if thorough { 48 } else { 36 }).wall_secs(600), true);
-		tally!(sys2);
-		not_exercised.extend(sys.unexercised().into_iter().map(|s| format!("[deviation] {s}")));
-		// (4) tiny units: the same candles scaled by 2^-60 (guards written as `> 0` / `!= 0` must not become thresholds)
-		{
-			let sc = (2.0f64).powi(if IS_F32 { -30 } else { -60 }) as ValueType;
-			let tiny: Vec<yata::core::Candle> = ks.iter().map(|c| yata::core::Candle { open: c.open * sc, high: c.high * sc, low: c.low * sc, close: c.close * sc, volume: c.volume }).collect();
-			let sys = IndSys::new(&format!("{name}/depth/tiny-units"), indicator_configs(Some(name), false), tiny[1..2].to_vec(), tiny.clone(), oracle, false);
-			h.go(&sys, &Limits::depth(if thorough { 5 } else { 4 }).wall_secs(600), true);
-			tally!(sys);
-		}
-		// (5) every float parameter at small / large values, long streams with sustained trends
-		{
-			let mut cfgs = vec![];
-			for (key, val) in ind::json_map(&c.to_json().unwrap()) {
-				if val.is_f64() {
-					for t in ["0.0005", "0.01", "0.45", "0.9", "2.5"] {
-						let mut x = c.boxed_clone();
-						if x.set(&key, t.to_string()).is_ok() && x.validate() {
-							cfgs.push(x);
-						}
-					}
-				}
-			}
-			if !cfgs.is_empty() {
-				let sys = IndSys::new(&format!("{name}/deviation/float-parameters"), cfgs.iter().map(|c| c.boxed_clone()).collect(), vec![ks[1]], vec![ks[1], ks[2], ks[3]], oracle, true);
-				h.go(&sys, &Limits::deviation(1, if thorough { 400 } else { 300 }).wall_secs(600), true);
-				if thorough {
-					let sys = IndSys::new(&format!("{name}/deviation-2/float-parameters"), cfgs, vec![ks[1]], vec![ks[1], ks[2], ks[3]], oracle, true);
-					h.go(&sys, &Limits::deviation(2, 100).wall_secs(600), true);
-					tally!(sys);
-				}
-				tally!(sys);
-			}
-		}
-		// (6) hundreds of swing highs / lows on one side of the slow averages: a zigzag on a steady trend
-		// (consecutive-peak counters, pivot rules, position counters) with at most one deviation
-		{
-			let sys = IndSys::new(&format!("{name}/deviation/zigzag-trend"), indicator_configs_small3(name), vec![ks[1]], vec![ks[1], ks[2]], oracle, true).with_zigzag();
-			h.go(&sys, &Limits::deviation(if thorough { 1 } else { 0 }, if thorough { 900 } else { 640 }).wall_secs(600), true);
-			tally!(sys);
-		}
-		// (8) one parameter at a time in the middle range (the default and the small variants leave the
-		// lengths 6..250 of most parameters untouched) and a volatile stream on which every step has a
-		// new value: constant / ramp / zigzag / volatile base streams with at most one deviation
-		{
-			let mut cfgs = vec![];
-			for (key, val) in ind::json_map(&c.to_json().unwrap()) {
-				let texts: Vec<String> = if val.is_u64() {
-					["7", "33", "120", "251", "254"].iter().map(|s| s.to_string()).collect()
-				} else if let Some(o) = val.as_object() {
-					let kind = o.keys().next().unwrap().clone();
-					let kind = if kind == "lin_reg" { "linreg".to_string() } else { kind };
-					["7", "33", "120", "254"].iter().map(|n| format!("{kind}-{n}")).collect()
-				} else {
-					vec![]
-				};
-				for t in texts {
-					let mut x = c.boxed_clone();
-					if x.set(&key, t).is_ok() && x.validate() {
-						cfgs.push(x);
-					}
-				}
-			}
-			let mut all = indicator_configs_small3(name);
-			all.extend(cfgs);
-			let sys = IndSys::new(&format!("{name}/deviation/mid-range-parameters+volatile"), all, vec![ks[1]], vec![ks[1], ks[2]], oracle, true).with_zigzag().with_volatile();
-			h.go(&sys, &Limits::deviation(if thorough { 1 } else { 0 }, if thorough { 520 } else { 700 }).wall_secs(600), true);
-			tally!(sys);
-		}
-		// (9) pairs of one length and one float parameter (thresholds scaled by a length, factors applied to
-		// a window): every combination of the mid-range lengths with the float values, steady / zigzag /
-		// volatile streams without deviation
-		{
-			let map = ind::json_map(&c.to_json().unwrap());
-			let ints: Vec<(&String, Vec<String>)> = map
-				.iter()
-				.filter_map(|(k, v)| {
-					if v.is_u64() {
-						Some((k, ["3", "20", "25", "100"].iter().map(|s| s.to_string()).collect()))
-					} else if let Some(o) = v.as_object() {
-						let kind = o.keys().next().unwrap().clone();
-						let kind = if kind == "lin_reg" { "linreg".to_string() } else { kind };
-						Some((k, ["3", "20", "25", "100"].iter().map(|n| format!("{kind}-{n}")).collect()))
-					} else {
-						None
-					}
-				})
-				.collect();
-			let floats: Vec<&String> = map.iter().filter(|(_, v)| v.is_f64()).map(|(k, _)| k).collect();
-			let mut cfgs = vec![];
-			for (ik, its) in &ints {
-				for fk in &floats {
-					for it in its {
-						for ft in ["0.01", "0.44", "0.45", "0.9", "2.5"] {
-							let mut x = c.boxed_clone();
-							if x.set(ik, it.clone()).is_ok() && x.set(fk, ft.to_string()).is_ok() && x.validate() {
-								cfgs.push(x);
-							}
-						}
-					}
-				}
-			}
-			if !cfgs.is_empty() {
-				let sys = IndSys::new(&format!("{name}/deviation/length-x-float-pairs"), cfgs, vec![ks[1]], vec![ks[1], ks[2]], oracle, true).with_zigzag().with_volatile();
-				h.go(&sys, &Limits::deviation(0, if thorough { 700 } else { 420 }).wall_secs(600), true);
-				tally!(sys);
-			}
-		}
-	}
-	if !missing.is_empty() {
-		h.run.machinery_error(format!("no reference model for: {missing:?}"));
-	}
-	h.run.note("signal_slots_not_fully_exercised", serde_json::json!(not_exercised));
-	if is_c06 {
-		let never: Vec<String> = totals.iter().filter(|(_, c)| c[0] == 0 || c[1] == 0 || c[2] == 0).map(|((n, s), c)| format!("{n} signal #{s}: documented rule said buy {} times, sell {}, silent {}, open {}", c[0], c[1], c[2], c[3])).collect();
-		h.run.note("signal_slots_never_expected_in_any_system", serde_json::json!(never));
-		h.run.note("signal_slot_expectations", serde_json::json!(totals.iter().map(|((n, s), c)| format!("{n}#{s}: buy {} sell {} silent {} open {}", c[0], c[1], c[2], c[3])).collect::<Vec<_>>()));
-	}
-	h.run.assume("reference formulas are my reading of each indicator's doc comment and linked formula (DESIGN.md Appendix A); entries marked there with a dagger follow the implementation where the documentation is silent");
-	h.finish();
+	c05::main()
 }
